@@ -62,8 +62,11 @@ func init() {
 	domains["cliargs"] = domain{runCliArgs,
 		"real CLI: `task fwd -- args…` (command `REC {{.CLI_ARGS}}`) and `task var X=value` (command `REC {{shellQuote .X}} " +
 			"{{q .X}}`) with argument vectors over the same byte alphabet (no NUL; `{{` only in a separate template stream), " +
-			"argv recorded by a helper binary; `task --init [PATH]` on generated directory trees (no arg, directory, file name, " +
-			"extension only, nested, absolute, existing targets, missing parents, `--`); distinct by argv / (tree, args)"}
+			"argv recorded by a helper binary; the value also reaches the command through an included task, through a `task:` call that hands it on in " +
+			"`vars:`, through a global alias; non-string values through shellQuote / q; `task --init [PATH]` on generated directory trees (no arg, " +
+			"directory, `.` / `sub/.`, hidden directories, file name, extension only, nested, absolute, existing targets, missing parents, `--`, symbolic " +
+			"links to directories / files / nowhere — the model gets the tree as os.Stat sees it), the expected target computed from the rule " +
+			"(initRule); distinct by argv / (tree, args)"}
 }
 
 // ---------------------------------------------------------------- byte-string generator
@@ -890,14 +893,24 @@ func evalInit(d *cliCase, ss []string) (cl string, il string) {
 	wd := filepath.Join(root, "w")
 	os.MkdirAll(wd, 0o755)
 	os.MkdirAll(filepath.Join(root, "home"), 0o755)
+	var links []string
 	for _, e := range d.Tree {
 		p := filepath.Join(root, e[2:])
-		if strings.HasPrefix(e, "d:") {
+		switch {
+		case strings.HasPrefix(e, "d:"):
 			os.MkdirAll(p, 0o755)
-		} else {
+		case strings.HasPrefix(e, "l:"): // l:<path>=<target as written in the link>
+			links = append(links, e[2:])
+		default:
 			os.MkdirAll(filepath.Dir(p), 0o755)
 			os.WriteFile(p, []byte("# pre-existing "+e+"\n"), 0o644)
 		}
+	}
+	for _, l := range links {
+		kv := strings.SplitN(l, "=", 2)
+		p := filepath.Join(root, kv[0])
+		os.MkdirAll(filepath.Dir(p), 0o755)
+		os.Symlink(strings.ReplaceAll(kv[1], "{ROOT}", root), p)
 	}
 	type ent struct {
 		dir     bool
@@ -919,6 +932,9 @@ func evalInit(d *cliCase, ss []string) (cl string, il string) {
 			}
 			if fi.IsDir() {
 				m[v] = ent{dir: true}
+			} else if fi.Mode()&os.ModeSymlink != 0 {
+				t, _ := os.Readlink(p) // the link itself (writing THROUGH a dangling link creates its target, the link stays)
+				m[v] = ent{content: "-> " + t}
 			} else {
 				b, _ := os.ReadFile(p)
 				m[v] = ent{content: string(b)}
@@ -928,6 +944,35 @@ func evalInit(d *cliCase, ss []string) (cl string, il string) {
 		return m
 	}
 	before := snap()
+	// Symbolic links: the model's file system has files and directories only, so it is given the tree AS os.Stat SEES IT — a link
+	// to a directory is that directory (with its entries below the link's name), a link to a file is a file, a dangling link is
+	// absent — and the file the run creates is mapped back to the name it was asked for (`viaLink`).
+	statView := map[string]ent{}
+	for k, v := range before {
+		statView[k] = v
+	}
+	for _, l := range links {
+		kv := strings.SplitN(l, "=", 2)
+		v := "/" + kv[0]
+		delete(statView, v)
+		st, err := os.Stat(filepath.Join(root, kv[0]))
+		switch {
+		case err != nil: // dangling
+		case st.IsDir():
+			statView[v] = ent{dir: true}
+			real, _ := filepath.EvalSymlinks(filepath.Join(root, kv[0]))
+			rel, _ := filepath.Rel(root, real)
+			for k2, v2 := range before {
+				if strings.HasPrefix(k2, "/"+rel+"/") {
+					statView[v+strings.TrimPrefix(k2, "/"+rel)] = v2
+				}
+			}
+		default:
+			statView[v] = ent{content: "via link"}
+		}
+	}
+	snapBefore := before
+	before = statView
 	// model input: virtual root "/"
 	virt := make([]string, len(ss))
 	real := make([]string, len(ss))
@@ -962,6 +1007,24 @@ func evalInit(d *cliCase, ss []string) (cl string, il string) {
 	}
 	rc, _ := runCLI(wd, filepath.Join(root, "home"), append([]string{flag}, withDash(real, d.Dash)...))
 	after := snap()
+	before = snapBefore
+	// the name under which the rule expects the new file, when that name leads (through links) to the file that was created
+	viaLink := func(physical string) string {
+		want := toks[0]
+		if !strings.HasPrefix(want, "w") || len(links) == 0 {
+			return physical
+		}
+		b, err := hex.DecodeString(want[1:])
+		if err != nil {
+			return physical
+		}
+		if real, err := filepath.EvalSymlinks(filepath.Join(root, string(b))); err == nil {
+			if rel, err := filepath.Rel(root, real); err == nil && "/"+rel == physical {
+				return string(b)
+			}
+		}
+		return physical
+	}
 	var created, changed []string
 	for k, v := range after {
 		b, ok := before[k]
@@ -984,7 +1047,7 @@ func evalInit(d *cliCase, ss []string) (cl string, il string) {
 	case len(changed) > 0:
 		return cl, "overwrote " + hxs(changed)
 	case rc == 0 && len(created) == 1 && !after[created[0]].dir && after[created[0]].content == task.DefaultTaskfile:
-		return cl, "written " + hx(created[0])
+		return cl, "written " + hx(viaLink(created[0]))
 	case rc == 0:
 		return cl, "ok-but-created " + hxs(created)
 	case len(created) > 0:
@@ -1059,7 +1122,9 @@ func (c *Ctx) genInit() *cliCase {
 	}
 	pool := []string{"d:w/sub", "d:w/deep/er", "f:w/Taskfile.yml", "f:w/sub/Taskfile.yml", "f:w/exist.yml", "f:w/sub/x.yml", "d:other",
 		"f:other/Taskfile.yml", "f:w/Taskfile.yaml", "d:w/dir.yml", "f:w/sub/Taskfile.yaml", "f:Taskfile.yml", "d:w/sub/Taskfile.yml", "d:w/with space",
-		"d:w/.hid", "d:w/sub/.cfg", "f:w/.hid/Taskfile.yml", "f:w/.dotfile", "f:w/Taskfile.hid", "f:w/Taskfile."}
+		"d:w/.hid", "d:w/sub/.cfg", "f:w/.hid/Taskfile.yml", "f:w/.dotfile", "f:w/Taskfile.hid", "f:w/Taskfile.",
+		// symbolic links: to a directory, dangling, to a file
+		"l:w/ldir=sub", "l:w/dangling.yml=nowhere.yml", "l:w/tolink.yml=exist.yml", "l:w/lother={ROOT}/other", "l:w/ldang=nodir"}
 	for _, e := range pool {
 		if c.Rng.Intn(3) == 0 {
 			d.Tree = append(d.Tree, e)
@@ -1069,7 +1134,8 @@ func (c *Ctx) genInit() *cliCase {
 		"{ROOT}/w/sub", "{ROOT}/other", "{ROOT}/other/a.yml", "{ROOT}/w/abs.yml", "..", "../up.yml", "./x.yml", "sub/../y.yml", ".", "./",
 		"with space", "with space/t.yml", "a b.yml", "Taskfile.yaml", "Taskfile.yml", "dir.yml", "deep/er", "deep/er/.yml", "noext", "a.b.c",
 		"sub//z.yml", "sub/./z.yml", "'q'.yml", "$HOME.yml", "*.yml", "x=y.yml", "é.yml",
-		".", "sub/.", "deep/er/.", "../w/.", "{ROOT}/w/.", "sub/..", "./.", ".hid", ".hid/", "sub/.cfg", ".dotfile", "...", ".a.b", "missing/.", "exist.yml/."}
+		".", "sub/.", "deep/er/.", "../w/.", "{ROOT}/w/.", "sub/..", "./.", ".hid", ".hid/", "sub/.cfg", ".dotfile", "...", ".a.b", "missing/.", "exist.yml/.",
+		"ldir", "ldir/x.yml", "ldir/.yaml", "dangling.yml", "tolink.yml", "lother", "lother/b.yml", "ldang", "ldang/x.yml"}
 	var argv []string
 	switch r := c.Rng.Intn(10); {
 	case r < 2:
